@@ -254,8 +254,8 @@ func init() {
 			"only PDUs obtained from the library (dispatcher, GenEmptyResponse, constructors) are required to report the command of their encoded header",
 		},
 		Stages: []*fw.Stage{
-			{Name: "pairing", N: q(61*300, 61*20000), Run: func(c *fw.Case) { c10Request(c, ts(), typeIdx(ts(), c.Idx)) }},
-			{Name: "dispatch", N: q(61*200, 61*10000), Run: func(c *fw.Case) { c10Dispatch(c, ts(), typeIdx(ts(), c.Idx)) }},
+			{Name: "pairing", N: q(61*300, 61*300000), Run: func(c *fw.Case) { c10Request(c, ts(), typeIdx(ts(), c.Idx)) }},
+			{Name: "dispatch", N: q(61*200, 61*200000), Run: func(c *fw.Case) { c10Dispatch(c, ts(), typeIdx(ts(), c.Idx)) }},
 			{
 				Name: "definedids", Exhaustive: "every command id defined in the cmpp/sgip/smgp/smpp const blocks and its response-bit twin, per dispatcher",
 				N: func(fw.Tier) uint64 { return 5 * 8 },
@@ -268,7 +268,7 @@ func init() {
 				},
 			},
 			{
-				Name: "randomids", N: q(100000, 10000000),
+				Name: "randomids", N: q(100000, 100000000),
 				Run: func(c *fw.Case) {
 					fam := pdus.Families[c.Idx%5]
 					id := c.R.U32()
@@ -280,7 +280,7 @@ func init() {
 				},
 			},
 			{
-				Name: "constructors", N: q(2000, 100000),
+				Name: "constructors", N: q(2000, 1000000),
 				Run: func(c *fw.Case) {
 					seq := c.R.U32()
 					acct := string(nonNulASCII(c.R, c.R.Range(0, 6)))
